@@ -52,6 +52,7 @@ def elastic_specs(draw, dim, classes=("iso", "tiso", "ortho", "aniso")):
                     v23=_grid(draw, 0.0, 0.3, 6), v13=_grid(draw, 0.0, 0.3, 6), v12=_grid(draw, 0.0, 0.3, 6))
     else:
         spec["Cseed"] = draw(st.integers(0, 9999))
+        spec["voigt"] = draw(st.booleans())  # the same stiffness handed over in Voigt notation
     return spec
 
 
@@ -87,7 +88,10 @@ def make_elastic(spec, Q=None):
             if flip3 and dim == 3:
                 sgn = np.array([1, 1, 1, -1, -1, 1.0])
                 C = C * np.outer(sgn, sgn)
-            mat = Models.Elastic.Anisotropic(dim, C, False, axis1=a1, axis2=a2, thickness=th)
+            if spec.get("voigt"):
+                w = np.array([1.0] * (n // 2 if dim == 3 else 2) + [np.sqrt(2)] * (3 if dim == 3 else 1))
+                C = C / np.outer(w, w)  # Kelvin-Mandel -> Voigt (harness's own weights)
+            mat = Models.Elastic.Anisotropic(dim, C, bool(spec.get("voigt")), axis1=a1, axis2=a2, thickness=th)
     except AssertionError as e:
         raise Inconclusive(f"law constructor rejected parameters: {str(e)[:40]}")
     C = np.asarray(mat.C, float)
